@@ -121,3 +121,12 @@ package keeper
 //@   ensures[C01.gssai.spec] (err != nil) <==> (stakerRaw(ctx, stakerID, assetID) == nil)
 //@   ensures[C01.gssai.val]  err == nil ==> info != nil && *info == stakerInfo(ctx, stakerID, assetID)
 //@   ensures[C01.gssai.nil]  err != nil ==> info == nil
+
+// ---------------------------------------------------------------------------------------------
+// C10: the gateway check
+
+//@ define paramsRaw(c) = get(c, "assets", cat(g("x/assets/types.KeyPrefixParams"), g("x/assets/types.ParamsKey")))
+//@ define gatewayOK(c, addr) = paramsRaw(c) != nil && addr == hex2addr(unm["x/assets/types.Params"](paramsRaw(c)).ExocoreLzAppAddress)
+
+//@ func (Keeper).CheckExocoreGatewayAddr
+//@   ensures[C10.cega.spec] (err == nil) <==> gatewayOK(ctx, addr)
